@@ -22,7 +22,7 @@ pub const SPEC: PropSpec = PropSpec {
         "a panic anywhere inside the guarded region is attributed to quick-xml (the harness accessors themselves are panic-free by construction: no indexing, no unwrap on results)",
         "termination is checked as the logical bound on the number of calls, not by wall-clock time",
     ],
-    required: &["reader.slice", "reader.buffered", "reader.async", "nsreader.slice", "nsreader.buffered", "nsreader.async", "accessor_calls", "syntax_errors_then_eof", "illformed_errors_continued", "attr_items", "skip_calls"],
+    required: &["reader.slice", "reader.buffered", "reader.async", "nsreader.slice", "nsreader.buffered", "nsreader.async", "accessor_calls", "syntax_errors_then_eof", "illformed_errors_continued", "attr_items", "skip_calls", "stream_reads"],
     run,
     replay,
     thorough_layers: &[("plain", 100), ("asan", 20), ("valgrind", 1), ("miri", 1), ("fuzz", 60)],
@@ -41,6 +41,7 @@ pub struct Local {
     max_calls_ratio_pct: u64,
     events: u64,
     skip_calls: u64,
+    stream_reads: u64,
 }
 
 /// The 48-value class representative set for exhaustive length-3 strings.
@@ -307,6 +308,8 @@ impl<'a> Either<'a> {
 
 #[derive(Clone, Copy, Debug, PartialEq, Eq)]
 pub enum Mode {
+    /// async reader with raw reads through `Reader::stream()` interleaved between events
+    ReaderAsyncStream,
     /// like ReaderSlice, but after some Start events read_to_end / read_text is called as well
     ReaderSliceSkips,
     NsSliceSkips,
@@ -320,6 +323,7 @@ pub enum Mode {
 impl Mode {
     fn name(self) -> &'static str {
         match self {
+            Mode::ReaderAsyncStream => "reader.async_with_stream_reads",
             Mode::ReaderSliceSkips => "reader.slice_with_skips",
             Mode::NsSliceSkips => "nsreader.slice_with_skips",
             Mode::ReaderSlice => "reader.slice",
@@ -332,6 +336,7 @@ impl Mode {
     }
     fn from(s: &str) -> Mode {
         match s {
+            "reader.async_with_stream_reads" => Mode::ReaderAsyncStream,
             "reader.slice_with_skips" => Mode::ReaderSliceSkips,
             "nsreader.slice_with_skips" => Mode::NsSliceSkips,
             "reader.buffered" => Mode::ReaderBuffered,
@@ -509,11 +514,38 @@ pub fn drive(input: &[u8], cfg: u8, mode: Mode, cuts: &[usize], pending: &[u8], 
                 false
             );
         }
-        Mode::ReaderAsync => {
+        Mode::ReaderAsync | Mode::ReaderAsyncStream => {
+            let with_stream = mode == Mode::ReaderAsyncStream;
             let mut r = Reader::from_reader(AsyncChunked::new(input, cuts.to_vec(), pending.to_vec()));
             apply_cfg(r.config_mut(), cfg);
             let mut buf = Vec::new();
             for _ in 0..limit {
+                if with_stream && !inv.terminal && inv.calls % 3 == 1 {
+                    // a raw read of a few bytes; read_exact re-polls with a partially filled ReadBuf
+                    use tokio::io::AsyncReadExt;
+                    let n = 1 + (inv.calls + cfg as usize) % 7;
+                    let mut raw = vec![0u8; n];
+                    let before = r.buffer_position();
+                    let res = guarded(|| -> Result<(), String> {
+                        let mut st = r.stream();
+                        let _ = block_on(st.read_exact(&mut raw), 64 + 300 * (len as u64 + 2))?;
+                        Ok(())
+                    });
+                    match res {
+                        Ok(Ok(())) => {}
+                        Ok(Err(e)) => return Err(e),
+                        Err(p) => return Err(format!("stream().read_exact after call {}: {}", inv.calls, p)),
+                    }
+                    loc.stream_reads += 1;
+                    let pos = r.buffer_position();
+                    if pos < before || pos > len as u64 || pos - before > n as u64 {
+                        return Err(format!(
+                            "after reading at most {} raw bytes through stream() the position went from {} to {} (input length {})",
+                            n, before, pos, len
+                        ));
+                    }
+                    inv.prev_pos = pos;
+                }
                 buf.clear();
                 let maxp = 64 + 300 * (len as u64 + 2);
                 let res = guarded(|| -> Result<Result<Event<'static>, quick_xml::Error>, String> {
@@ -694,8 +726,8 @@ fn one_input(ctx: &mut Ctx, loc: &mut Local, input: &[u8], r: &mut Rng, heavy: b
     let pick = r.below(if heavy { 2 } else { 16 });
     if pick == 0 && input.len() > 1 {
         let c1 = cuts_for_piece(input.len(), 1, 0);
-        let modes = [Mode::ReaderBuffered, Mode::NsBuffered, Mode::ReaderAsync, Mode::NsAsync];
-        let m = modes[r.below(4)];
+        let modes = [Mode::ReaderBuffered, Mode::NsBuffered, Mode::ReaderAsync, Mode::NsAsync, Mode::ReaderAsyncStream];
+        let m = modes[r.below(5)];
         let mut cuts = c1;
         if r.bool() {
             cuts = Vec::new();
@@ -797,6 +829,7 @@ fn flush(ctx: &mut Ctx, loc: &Local) {
     ctx.add("attr_errors", loc.attr_errors);
     ctx.add("events_exercised", loc.events);
     ctx.add("skip_calls", loc.skip_calls);
+    ctx.add("stream_reads", loc.stream_reads);
     ctx.add("syntax_errors_then_eof", loc.syntax_then_eof);
     ctx.add("illformed_errors_continued", loc.illformed_continued);
     ctx.max("max.calls_per_100_input_bytes", loc.max_calls_ratio_pct);
